@@ -336,6 +336,8 @@ func RunCheck(o CheckOptions) int {
 				kind := ""
 				if ee, ok := err.(*exec.ExitError); ok && ee.ExitCode() == 77 {
 					kind = "hang"
+				} else if ok && ee.ExitCode() == ExitDeadlock {
+					kind = "deadlock"
 				} else if i := strings.Index(stderr.String(), "fatal error: "); i >= 0 {
 					line := stderr.String()[i+len("fatal error: "):]
 					if j := strings.IndexByte(line, '\n'); j >= 0 {
